@@ -60,9 +60,44 @@ pub fn breadcrumb(case: &str) {
     }
 }
 
+static PROGRESS: std::sync::atomic::AtomicU64 = std::sync::atomic::AtomicU64::new(0);
+static IN_GUARDED: std::sync::atomic::AtomicBool = std::sync::atomic::AtomicBool::new(false);
+
 /// Run `f`, turning a panic into `None` (a panic in the code under test is data).
 pub fn guarded<R>(f: impl FnOnce() -> R) -> Option<R> {
-    catch_unwind(AssertUnwindSafe(f)).ok()
+    use std::sync::atomic::Ordering::Relaxed;
+    PROGRESS.fetch_add(1, Relaxed);
+    let nested = IN_GUARDED.swap(true, Relaxed);
+    let r = catch_unwind(AssertUnwindSafe(f)).ok();
+    IN_GUARDED.store(nested, Relaxed);
+    PROGRESS.fetch_add(1, Relaxed);
+    r
+}
+
+/// A call into the code under test that does not return is data too: a watchdog thread ends the process
+/// with exit code 3 when one guarded call has been in flight for CLV_HANG_SECS (default 20) seconds; the
+/// runner re-runs in breadcrumb mode and reports the case as a violation.
+pub fn start_hang_watchdog() {
+    use std::sync::atomic::Ordering::Relaxed;
+    let limit: u64 = std::env::var("CLV_HANG_SECS").ok().and_then(|s| s.parse().ok()).unwrap_or(20);
+    std::thread::spawn(move || {
+        let mut last = PROGRESS.load(Relaxed);
+        let mut still = 0u64;
+        loop {
+            std::thread::sleep(std::time::Duration::from_secs(1));
+            let now = PROGRESS.load(Relaxed);
+            if now == last && IN_GUARDED.load(Relaxed) {
+                still += 1;
+                if still >= limit {
+                    eprintln!("HANG: a call into the code under test has not returned for {} s", limit);
+                    std::process::exit(3);
+                }
+            } else {
+                still = 0;
+                last = now;
+            }
+        }
+    });
 }
 
 pub fn jbytes(b: &[u8]) -> Value {
